@@ -154,6 +154,24 @@ Fixpoint intersperse_break (l : list node) : list node :=
 Definition vtt_cue_nodes (fixed : bool) (lines : list str) : list node :=
   intersperse_break (map (fun l => NText (vtt_decode fixed l)) lines).
 
+(* WebVTTReader._parse: the line loop.  State: nodes of the cue being collected (reversed), found_timing, captions
+   (reversed).  Timing lines are recognised by the arrow only (their parsing is C01's business). *)
+Definition has_arrow_b (l : str) : bool := is_infix (lit "-->") l.
+Definition vtt_line_step (fixed : bool) (st : list node * bool * list (list node)) (line : str)
+  : list node * bool * list (list node) :=
+  let '(nodes, found, caps) := st in
+  if has_arrow_b line then (nodes, true, caps)
+  else match line with
+       | [] => if found && (match nodes with [] => false | _ => true end)
+               then ([], false, rev nodes :: caps) else st
+       | _ => if found
+              then ((NText (vtt_decode fixed line)) :: (match nodes with [] => [] | _ => NBreak :: nodes end), found, caps)
+              else st
+       end.
+Definition vtt_parse (fixed : bool) (lines : list str) : list (list node) :=
+  let '(nodes, _, caps) := fold_left (vtt_line_step fixed) lines ([], false, []) in
+  rev (match nodes with [] => caps | _ => rev nodes :: caps end).
+
 (* ======================= SAMI, stage 1 (SAMIParser) ============================================== *)
 Inductive hev : Type :=
 | EvStart (tag : str) (attrs : list (str * str))
